@@ -28,9 +28,9 @@ type Explorer struct {
 	// New makes a fresh system.
 	New func() *Sys
 	// Abs advances the abstract persistence state (part of the dedup key) over
-	// one event; changed tells whether the event changed the model state. May
-	// be nil.
-	Abs func(abs string, ev Event, changed bool) string
+	// one primitive event; before/after are the model states around it (the
+	// same pointer if the event changed nothing). May be nil.
+	Abs func(abs string, ev Event, before, after *dbmodel.DB) string
 	// Judge is called after the last event of a path has been applied (its
 	// outcome already agreed with the model); it returns violations. changed
 	// tells whether the event changed the model state.
@@ -91,7 +91,7 @@ func hashKey(s string) [16]byte {
 // modelStep applies an event to a clone of the model. unmodeled: the model
 // declines to decide the event (transition not explored). abs, if not nil,
 // is advanced over every primitive event.
-func modelStep(m *dbmodel.DB, ev Event, absf func(string, Event, bool) string, abs string) (next *dbmodel.DB, nabs string, changed, unmodeled bool) {
+func modelStep(m *dbmodel.DB, ev Event, absf func(string, Event, *dbmodel.DB, *dbmodel.DB) string, abs string) (next *dbmodel.DB, nabs string, changed, unmodeled bool) {
 	if ev.Kind == "seq" {
 		next, nabs = m, abs
 		for _, e := range ev.Seq {
@@ -107,7 +107,10 @@ func modelStep(m *dbmodel.DB, ev Event, absf func(string, Event, bool) string, a
 	next, changed, unmodeled = modelStep1(m, ev)
 	nabs = abs
 	if absf != nil && !unmodeled {
-		nabs = absf(abs, ev, changed)
+		if !changed {
+			next = m
+		}
+		nabs = absf(abs, ev, m, next)
 	}
 	return next, nabs, changed, unmodeled
 }
@@ -239,4 +242,48 @@ func (x *Explorer) execute(seed []Event, nd node, ei int, changed bool) {
 	for _, v := range x.Judge(s, evs, changed) {
 		x.Fail(v, evs)
 	}
+}
+
+// ModelState is a state of the model-side search with a shortest path to it.
+type ModelState struct {
+	Path []Event
+	M    *dbmodel.DB
+}
+
+// EnumerateStates runs the breadth-first search on the model alone and
+// returns every distinct model state reachable from seed within maxDepth
+// events, each with a shortest path (seed included).
+func EnumerateStates(events []Event, seed []Event, maxDepth int) []ModelState {
+	m := dbmodel.New()
+	for _, ev := range seed {
+		nm, _, _, un := modelStep(m, ev, nil, "")
+		if un {
+			lib.Infra("seed contains an unmodeled event %s", ev.String())
+		}
+		m = nm
+	}
+	visited := map[[16]byte]bool{hashKey(m.Canon()): true}
+	out := []ModelState{{Path: append([]Event(nil), seed...), M: m}}
+	frontier := []int{0}
+	for depth := 1; depth <= maxDepth; depth++ {
+		var next []int
+		for _, fi := range frontier {
+			for _, ev := range events {
+				nm, _, changed, un := modelStep(out[fi].M, ev, nil, "")
+				if un || !changed {
+					continue
+				}
+				k := hashKey(nm.Canon())
+				if visited[k] {
+					continue
+				}
+				visited[k] = true
+				p := append(append([]Event(nil), out[fi].Path...), ev)
+				out = append(out, ModelState{Path: p, M: nm})
+				next = append(next, len(out)-1)
+			}
+		}
+		frontier = next
+	}
+	return out
 }
